@@ -44,6 +44,7 @@ type Prog struct {
 	modulePath string
 	implCache map[string][]types.Type
 	loadSecs  float64
+	allocCache map[*ssa.Function]map[string]types.Type
 }
 
 func LoadProg(repo, trustedDir string) (*Prog, error) {
@@ -353,4 +354,122 @@ func (p *Prog) closedInterface(it types.Type) bool {
 		}
 	}
 	return false
+}
+
+// moduleType: a named struct type declared in this module.
+func (p *Prog) moduleType(t types.Type) bool {
+	n, ok := t.(*types.Named)
+	if !ok || n.Obj().Pkg() == nil {
+		return false
+	}
+	_, in := p.modPkgs[n.Obj().Pkg().Path()]
+	return in && isStruct(t)
+}
+
+// allocTypes: struct types of which fn (transitively, within the module) may
+// allocate objects. Computed once for all module functions as a fixpoint.
+func (p *Prog) allocTypes(fn *ssa.Function) map[string]types.Type {
+	if p.allocCache == nil {
+		p.allocCache = map[*ssa.Function]map[string]types.Type{}
+		callees := map[*ssa.Function][]*ssa.Function{}
+		var all []*ssa.Function
+		seen := map[*ssa.Function]bool{}
+		var visit func(g *ssa.Function)
+		visit = func(g *ssa.Function) {
+			if g == nil || seen[g] || !p.inModule(g) {
+				return
+			}
+			seen[g] = true
+			all = append(all, g)
+			out := map[string]types.Type{}
+			p.allocCache[g] = out
+			var addT func(t types.Type)
+			addT = func(t types.Type) {
+				if s, ok := t.Underlying().(*types.Struct); ok {
+					out[typeKeyFull(t)] = t
+					for i := 0; i < s.NumFields(); i++ {
+						if isStruct(s.Field(i).Type()) {
+							addT(s.Field(i).Type())
+						}
+					}
+				}
+			}
+			for _, b := range g.Blocks {
+				for _, in := range b.Instrs {
+					switch x := in.(type) {
+					case *ssa.Alloc:
+						addT(x.Type().Underlying().(*types.Pointer).Elem())
+					case *ssa.MakeClosure:
+						callees[g] = append(callees[g], x.Fn.(*ssa.Function))
+						visit(x.Fn.(*ssa.Function))
+					case ssa.CallInstruction:
+						c := x.Common()
+						if c.IsInvoke() {
+							if p.closedInterface(c.Value.Type()) {
+								for _, ct := range p.implementers(c.Value.Type()) {
+									if m := p.methodOf(ct, c.Method); m != nil {
+										callees[g] = append(callees[g], m)
+										visit(m)
+									}
+								}
+							}
+							continue
+						}
+						if h, ok := c.Value.(*ssa.Function); ok {
+							callees[g] = append(callees[g], h)
+							visit(h)
+						}
+					}
+				}
+			}
+		}
+		for _, g := range p.funcs {
+			visit(g)
+		}
+		for changed := true; changed; {
+			changed = false
+			for _, g := range all {
+				for _, h := range callees[g] {
+					for k, v := range p.allocCache[h] {
+						if _, ok := p.allocCache[g][k]; !ok {
+							p.allocCache[g][k] = v
+							changed = true
+						}
+					}
+				}
+			}
+		}
+	}
+	if r, ok := p.allocCache[fn]; ok {
+		return r
+	}
+	return map[string]types.Type{}
+}
+
+// reachableStructs adds the module struct types reachable from t through
+// pointers, slices, maps and fields.
+func (p *Prog) reachableStructs(t types.Type, out map[string]types.Type, depth int) {
+	if depth > 6 {
+		return
+	}
+	switch u := t.Underlying().(type) {
+	case *types.Pointer:
+		p.reachableStructs(u.Elem(), out, depth+1)
+	case *types.Slice:
+		p.reachableStructs(u.Elem(), out, depth+1)
+	case *types.Map:
+		p.reachableStructs(u.Elem(), out, depth+1)
+	case *types.Struct:
+		if !p.moduleType(t) {
+			return
+		}
+		k := typeKeyFull(t)
+		if _, ok := out[k]; ok {
+			return
+		}
+		out[k] = t
+		for i := 0; i < u.NumFields(); i++ {
+			p.reachableStructs(u.Field(i).Type(), out, depth+1)
+		}
+	}
 }
